@@ -56,10 +56,12 @@ type vpRescanChain struct {
 	sub     chan blockntfns.BlockNtfn
 	subOpen bool
 	// scripted chain changes still to happen and where they may happen
-	pending   []func()
-	callbacks int
-	fireAt    int // the pending change is applied at this chain-source call (0 = only between events)
-	filterFailures int // GetCFilter fails this many more times
+	pending        []func()
+	callbacks      int
+	fireAt         int   // the pending change is applied at this chain-source call (0 = only between events)
+	cutBack        bool  // headers were discarded without a replacement at some point
+	nextFireAt     []int // firing points (calls after the previous change) of the changes after the first
+	filterFailures int   // GetCFilter fails this many more times
 	blockFailures  int
 }
 
@@ -69,6 +71,13 @@ func (c *vpRescanChain) maybeChange() {
 		f := c.pending[0]
 		c.pending = c.pending[1:]
 		f()
+		// the next change may also happen at a later call of the walk
+		c.callbacks = 0
+		c.fireAt = 0
+		if len(c.nextFireAt) > 0 {
+			c.fireAt = c.nextFireAt[0]
+			c.nextFireAt = c.nextFireAt[1:]
+		}
 	}
 }
 
@@ -202,7 +211,7 @@ func VerifH_C09_walk() {
 	watched := wire.OutPoint{Hash: chainhash.Hash{0xaa}, Index: 1}
 	watchScript := []byte{0x00, 0x14, 0x77}
 	// initial chain of n blocks; the watched outpoint may be spent in one of them
-	n := vpRange("initialBlocks", 1, 3)
+	n := vpRange("initialBlocks", vpParam("minblocks", 1), 3)
 	spendAt := vpRange("spendAt", 0, n+2) // height of the block spending the watched outpoint (0 = never)
 	salt := uint32(1)
 	mk := func() {
@@ -218,9 +227,9 @@ func VerifH_C09_walk() {
 		mk()
 	}
 	// scripted chain changes
-	nchg := vpRange("changes", 0, vpParam("maxchanges", 2))
+	nchg := vpRange("changes", vpParam("minchanges", 0), vpParam("maxchanges", 2))
 	for k := 0; k < nchg; k++ {
-		switch vpRange("change", 0, 1) {
+		switch vpRange("change", 0, vpParam("changekinds", 1)) {
 		case 0:
 			c.pending = append(c.pending, func() { mk(); vpReach("chain-grew") })
 		case 1:
@@ -238,11 +247,30 @@ func VerifH_C09_walk() {
 				}
 				vpReach("chain-reorganised")
 			})
+		case 2:
+			// headers are discarded without a replacement (a branch that
+			// failed a checkpoint is cut back)
+			d := vpRange("shrinkBy", 1, 2)
+			c.pending = append(c.pending, func() {
+				if d >= len(c.best) {
+					return
+				}
+				for j := 0; j < d; j++ {
+					c.disconnectTip()
+				}
+				c.cutBack = true
+				vpReach("chain-cut-back")
+			})
 		}
 	}
-	c.fireAt = vpRange("firstChangeAtCall", 0, vpParam("maxcall", 6))
-	c.filterFailures = vpRange("filterFailures", 0, 1)
-	c.blockFailures = vpRange("blockFailures", 0, 1)
+	c.fireAt = vpRange("firstChangeAtCall", vpParam("mincall", 0), vpParam("maxcall", 6))
+	for k := 1; k < nchg && c.fireAt != 0 && vpParam("laterchanges", 0) == 1; k++ {
+		c.nextFireAt = append(c.nextFireAt, vpRange("laterChangeAfterCalls", 0, vpParam("latercall", 3)))
+	}
+	if vpParam("nofailures", 0) == 0 {
+		c.filterFailures = vpRange("filterFailures", 0, 1)
+		c.blockFailures = vpRange("blockFailures", 0, 1)
+	}
 
 	var walk []vpWalkEvent
 	quit := make(chan struct{})
@@ -325,7 +353,17 @@ func VerifH_C09_walk() {
 	if rerr == ErrRescanExit && c.filterFailures == 0 && c.blockFailures == 0 {
 		// nothing left to retry: the walk has caught up with the chain
 		vpReach("caught-up")
-		vpAssert(cur == c.best[len(c.best)-1] && int(curH) == len(c.best)-1, "walk-ends-at-the-chain-tip")
+		if c.cutBack {
+			// After headers were discarded without replacement the rescan may
+			// sit on a block that is no longer on the chain until the next
+			// block notification makes it rewind (the property does not ask
+			// for promptness): recorded, not asserted.
+			if !(cur == c.best[len(c.best)-1] && int(curH) == len(c.best)-1) {
+				vpNote("walk-not-at-the-tip-after-a-cut-back")
+			}
+		} else {
+			vpAssert(cur == c.best[len(c.best)-1] && int(curH) == len(c.best)-1, "walk-ends-at-the-chain-tip")
+		}
 	} else if rerr != ErrRescanExit {
 		vpReach("rescan-ended-with-error")
 		if rerr != nil {
